@@ -99,7 +99,7 @@ def gen_case(rng, i, nprocs):
     elif rng.random() < 0.5:
         hints["nc_header_align_size"] = rng.choice([1, 4, 8, 512, 1000, 4096])
     if not stress and rng.random() < 0.4:
-        hints["nc_record_align_size"] = rng.choice([1, 4, 8, 512, 1000])
+        hints["nc_record_align_size"] = rng.choice([1, 4, 6, 8, 512, 1000, 1022])
     if rng.random() < 0.3:
         hints["nc_var_align_size"] = rng.choice([1, 4, 512])
     p = P3(rng, nprocs, "@OUT@/c03.nc", version, hints=";".join("%s:%s" % kv for kv in hints.items()) or None)
@@ -147,7 +147,7 @@ def gen_case(rng, i, nprocs):
         p.put_att(vid, nm, rng.choice(tps), rng.choice([0, 0, 1, 2, 3, 7, 64, 1000 if rng.random() < 0.1 else 5]))
     args = None
     if rng.random() < 0.5:
-        args = dict(hmin=rng.choice([0, 0, 10, 300]), valign=rng.choice([0, 1, 4, 64, 512, 1000]), vmin=rng.choice([0, 0, 12, 500]), ralign=rng.choice([0, 1, 4, 64, 1000]))
+        args = dict(hmin=rng.choice([0, 0, 10, 300]), valign=rng.choice([0, 1, 4, 6, 64, 512, 1000]), vmin=rng.choice([0, 0, 12, 500]), ralign=rng.choice([0, 1, 3, 4, 6, 64, 1000, 1022]))
         p.emit("*", "_enddef", Expect(0), f=p.f, **args)
     else:
         p.emit("*", "enddef", Expect(0), f=p.f)
@@ -200,7 +200,7 @@ def gen_case(rng, i, nprocs):
                 if p.var_id(nm) < 0:
                     p.def_var(nm, rng.choice(tps), ds)
             if rng.random() < 0.4:
-                args = dict(hmin=rng.choice([0, 16, 200]), valign=rng.choice([0, 4, 64, 512]), vmin=rng.choice([0, 8, 100]), ralign=rng.choice([0, 4, 64, 512]))
+                args = dict(hmin=rng.choice([0, 16, 200]), valign=rng.choice([0, 4, 64, 512]), vmin=rng.choice([0, 8, 100]), ralign=rng.choice([0, 4, 6, 64, 510, 512]))
                 p.emit("*", "_enddef", Expect(0), f=p.f, **args)
                 p.cur_args = {"hints": hints, "args": args}
             else:
